@@ -7,7 +7,7 @@ From Alliance Require Import Num KMap KMapSorted Types Monad Model Step Spec Hoa
 From Alliance.Witness Require Import F_C17_interval_zero F_C17_decay_overflow F_C17_div_zero.
 From Alliance.Proofs Require Import Totality ParamsInv.
 From Alliance.Proofs Require Import FailureModes.
-From Alliance.Proofs Require TokensNonneg CustodyClosed PayoutTotal PayoutReachable.
+From Alliance.Proofs Require TokensNonneg CustodyClosed PayoutTotal PayoutReachable TotalFloor TakeTotal EndBlockPrefix EndBlockReachable.
 Import ListNotations.
 Open Scope Z_scope.
 
@@ -122,4 +122,52 @@ Proof.
       try (unfold ACC_ALLIANCE; lia); try (vm_compute; discriminate); try (vm_compute; intro; discriminate); try constructor;
       try (vm_compute; congruence). all: rewrite !Custody.sl_is_slack; unfold slack, custody, owed, staked_total, unbonding_sum, all_undels, bal; cbn. all: destruct (d ?= 1); cbn; try lia.
   - unfold C17_example. repeat constructor; vm_compute; discriminate.
+Qed.
+
+(* The first FOUR phases (redelegation completion, payout, asset initialisation, take-rate deduction with its
+   transfer to the fee collector): for every admissible history, at the next block — claim interval positive
+   (C17_interval_positive_in_every_reachable_state), block time within 2^69 ns (about 18 000 years) of the last
+   claim — they return normally, and EndBlocker is exactly the weight decay and the rebalance run on their
+   result.  So in these states EndBlocker can fail only in those two legs (F-C17-2, F-C17-3).  The take-rate
+   leg: PowerMut on a base in [0,1] neither overflows nor leaves [0,1]; the deducted amount is between 0 and
+   the staked total; custody covers the staked totals (C01 + C03). *)
+Theorem C17_asset_legs_never_fail : forall h t ht, EndBlockReachable.history_ok h ->
+  let s := fst (step (run init_state h) (OBeginBlock t ht)) in
+  0 < p_interval (params s) ->
+  (p_last (params s) = ZERO_TIME \/ 0 <= t - p_last (params s) < 2 ^ 69) ->
+  exists r s', EndBlockPrefix.end_block_prefix s = Ok r s'.
+Proof. exact EndBlockReachable.asset_legs_never_fail. Qed.
+Print Assumptions C17_asset_legs_never_fail.
+
+Theorem C17_end_blocker_fails_only_in_decay_or_rebalance : forall h t ht, EndBlockReachable.history_ok h ->
+  let s := fst (step (run init_state h) (OBeginBlock t ht)) in
+  0 < p_interval (params s) ->
+  (p_last (params s) = ZERO_TIME \/ 0 <= t - p_last (params s) < 2 ^ 69) ->
+  exists als2 s', EndBlockPrefix.end_block_prefix s = Ok als2 s' /\
+    end_blocker s = (als3 <- reward_weight_change_hook als2 ;; rebalance_hook als3) s'.
+Proof. exact EndBlockReachable.end_blocker_fails_only_after_the_prefix. Qed.
+Print Assumptions C17_end_blocker_fails_only_in_decay_or_rebalance.
+
+(* the take-rate leg at state level *)
+Theorem C17_take_rate_leg_total : forall last als s,
+  ksorted (bank s) -> Forall TakeTotal.AVt als ->
+  (forall d, In d (map a_denom als) -> TakeTotal.tot als d <= bal s ACC_ALLIANCE d) ->
+  0 < p_interval (params s) -> (last = ZERO_TIME \/ 0 <= now s - last < 2 ^ 69) ->
+  exists r s', deduct_take_rate last als s = Ok r s'.
+Proof. exact TakeTotal.deduct_take_rate_total. Qed.
+Print Assumptions C17_take_rate_leg_total.
+Theorem C17_power_of_a_unit_fraction : forall base n, 0 <= base <= ONE -> 0 <= n < 2 ^ 69 ->
+  exists m, dpow base n = Some m /\ 0 <= m <= ONE.
+Proof. exact TakeTotal.dpow_unit. Qed.
+Print Assumptions C17_power_of_a_unit_fraction.
+
+Example C17_prefix_nonvacuous : EndBlockReachable.history_ok C17_example /\
+  let s := fst (step (run init_state C17_example) (OBeginBlock 130 3)) in
+  0 < p_interval (params s) /\ 0 <= 130 - p_last (params s) < 2 ^ 69 /\
+  (exists als, option_map fst (match EndBlockPrefix.end_block_prefix s with Ok r s' => Some (r, s') | _ => None end) = Some als).
+Proof.
+  destruct C17_payout_nonvacuous as [[H1 H2] _]. split; [split; [exact H1 | split; [exact H2|]]|].
+  - unfold C17_example. repeat (apply Forall_cons || apply Forall_nil); cbn [TotalFloor.op_ok]; try exact I; try reflexivity.
+    split; [vm_compute; reflexivity | split; vm_compute; discriminate].
+  - split; [vm_compute; reflexivity | split; [split; [vm_compute; intro; discriminate | vm_compute; reflexivity]|]]. vm_compute. eexists; reflexivity.
 Qed.
